@@ -9,6 +9,7 @@ import (
 	"os"
 	"os/exec"
 	"path/filepath"
+	"regexp"
 	"runtime"
 	"sort"
 	"strconv"
@@ -118,7 +119,7 @@ func runWorker(prop Property, tier string, base uint64, from, to int, only map[i
 		if v != nil {
 			ws.NViol++
 			fc := freeze(c, ri)
-			if kfs := classify(prop, fc, findings); kfs != nil {
+			if kfs := classify(prop, fc, findings, v); kfs != nil {
 				for _, kf := range kfs {
 					ws.Known[kf.ID]++
 				}
@@ -165,6 +166,9 @@ type knownFinding struct {
 	What        string `json:"what"`
 	Neutraliser string `json:"neutraliser,omitempty"`
 	Commit      string `json:"commit,omitempty"`
+	// OnlyIf, if set, is a regular expression the violation's detail must match for the
+	// finding to apply (narrows a finding to the call sites where it is known to show)
+	OnlyIf string `json:"only_if,omitempty"`
 }
 
 func loadFindings(root string) []knownFinding {
@@ -186,12 +190,17 @@ var neutralisers = map[string]func(*Case) (*Case, bool){}
 
 // classify attributes a violation to an open known finding, if neutralising that
 // finding's trigger (and nothing else) makes the case pass.
-func classify(prop Property, c *Case, findings []knownFinding) []*knownFinding {
+func classify(prop Property, c *Case, findings []knownFinding, v *Violation) []*knownFinding {
 	var applicable []*knownFinding
 	for i := range findings {
 		f := &findings[i]
 		if f.Property != prop.ID() || f.Status != "open" {
 			continue
+		}
+		if f.OnlyIf != "" && v != nil {
+			if ok, _ := regexp.MatchString(f.OnlyIf, v.Detail); !ok {
+				continue
+			}
 		}
 		nz := neutralisers[f.Neutraliser]
 		if nz == nil {
@@ -485,7 +494,7 @@ func driver(propID, tier string) int {
 	os.MkdirAll(filepath.Join(root, "replays"), 0755)
 	for _, wv := range agg.Violations {
 		if !strings.HasSuffix(wv.V.Rule, "-deadlock") {
-			if kfs := classify(prop, wv.Case, findings); kfs != nil {
+			if kfs := classify(prop, wv.Case, findings, wv.V); kfs != nil {
 				for _, kf := range kfs {
 					knownSeen[kf.ID]++
 				}
@@ -508,7 +517,7 @@ func driver(propID, tier string) int {
 		}
 		rf := &replayFile{Property: propID, Rule: mv.Rule, BaseSeed: base, Index: wv.Index, Seed: wv.Seed, Violation: mv, Case: mc, Minimised: steps > 0, MinimiseSteps: steps}
 		// a minimised case may have turned into a known finding's shape; if so report the unminimised one
-		if kfs := classify(prop, mc, findings); kfs != nil && steps > 0 {
+		if kfs := classify(prop, mc, findings, mv); kfs != nil && steps > 0 {
 			rf.Case, rf.Violation, rf.Minimised = wv.Case, wv.V, false
 			rf.Note = "minimisation drifted into known finding " + kfs[0].ID + "; unminimised case reported"
 		}
